@@ -345,7 +345,8 @@ def recover(inp, outp, verbose=0, partial=False, force=False, pack=None):
 
         nrec = 0
         try:
-            for r in txn:
+            records = iter(txn)
+            for r in records:
                 if verbose > 1:
                     if r.data is None:
                         l_ = "bp"
@@ -356,6 +357,10 @@ def recover(inp, outp, verbose=0, partial=False, force=False, pack=None):
                 ofs.restore(r.oid, r.tid, r.data, '', r.data_txn,
                             txn)
                 nrec += 1
+            if records._pos != records._tend:
+                # The record iterator only logs a warning and stops when
+                # it meets a record it cannot make sense of.
+                error("bad data record at %s", records._pos)
         except (KeyboardInterrupt, SystemExit):
             raise
         except Exception as err:
